@@ -70,7 +70,7 @@ static std::string MkEsc(const std::string& p) {
 struct Stmt {
   std::string out0, kind = "cmd", deps = "none", depfile, rsp, says, primary;
   std::vector<std::string> outs, reads;
-  bool follow = true, restat = false, early = false, dd = false, nocmd = false, respell = false;
+  bool follow = true, restat = false, early = false, dd = false, nocmd = false, respell = false, keep2 = false;
   std::vector<std::pair<std::string, std::string>> serves;  // (out0 of served stmt, its source)
   std::map<std::string, std::string> regen;                // config content -> manifest text
   std::string regen_from;
@@ -102,6 +102,7 @@ std::map<std::string, Stmt> ParseStmts(const JV& v) {
     s.dd = j.boolean("dd");
     s.nocmd = j.boolean("nocmd");
     s.respell = j.boolean("respell");
+    s.keep2 = j.boolean("keep2");       // a tool that rewrites its first output always and its further outputs only when they change
     for (auto& sv : j.at("serves").a) s.serves.emplace_back(sv.a[0].s, sv.a[1].s);
     for (auto& rv : j.at("regen").o) s.regen[rv.first] = rv.second.s;
     s.regen_from = j.str("regen_from");
@@ -356,7 +357,7 @@ struct SimRunner : public CommandRunner {
         const VFile* cur = disk->Get(o);
         // a command served by a dyndep file that declares it restat behaves like a restat command
         bool restat_like = st.restat || (st.dd && !Directives(r.primary_content, "#ddrestat").empty());
-        if (restat_like && cur && cur->content == c) { kept.push(o); continue; }
+        if ((restat_like || (st.keep2 && o != st.outs[0])) && cur && cur->content == c) { kept.push(o); continue; }
         if (!disk->Put(o, c)) { status = 1; output += "sim: cannot write " + o + "\n"; ev.set("write_failed", o); break; }
         wrote.push(o);
       }
